@@ -76,6 +76,11 @@ class ConnectionState:
         return self._session
 
     @property
+    def authenticated(self) -> bool:
+        """True once the connection has begun a session."""
+        return self._session is not None
+
+    @property
     def selected(self) -> SelectedMailbox:
         if self._selected is None:
             # Commands using this attribute should be state-bound to only be
